@@ -861,7 +861,7 @@ func (tx *Transaction) ProcessURI(uri string, method string, httpVersion string)
 		*/
 	} else {
 		tx.ExtractGetArguments(parsedURL.RawQuery)
-		tx.variables.requestURI.Set(parsedURL.String())
+		tx.variables.requestURI.Set(uri)
 		path = parsedURL.Path
 		query = parsedURL.RawQuery
 	}
